@@ -2,7 +2,10 @@
 // (directly, and installed as the current new / new[] / malloc allocator) and on the real C interface
 // (cpputest_malloc_set_out_of_memory_countdown & co, cpputest_malloc/calloc/strdup/strndup, and the malloc statistics
 // cpputest_malloc_count_reset / cpputest_malloc_get_count that count the same allocations), and logs one ndjson
-// line per call with what the caller saw and what cpputest_malloc_get_count returns after it.  It never judges.
+// line per call with what the caller saw, what cpputest_malloc_get_count returns after it and which allocator is the
+// current malloc allocator after it (cur: failable | plain | null | other - a diagnostic).  It never judges.
+// The test's malloc allocator is installed by `install` lines (via = failable | plain) and by reset (failable) only:
+// after cpputest_malloc_set_not_out_of_memory the allocations are served by whatever allocator the code put back.
 //   failalloc <script.tsv> <log.ndjson>      script lines: op<TAB>via<TAB>loc<TAB>n ; `reset` = fresh allocator
 #include "vh.h"
 #include <new>
@@ -31,6 +34,15 @@ static char g_alloc_file[2][16] = { "fileA.c", "fileB.c" };
 static const char* desig_file(long loc) { return g_desig_file[((loc - 1) / 2) & 1]; }
 static const char* alloc_file(long loc) { return g_alloc_file[((loc - 1) / 2) & 1]; }
 static size_t line_of(long loc) { return (size_t) (10 + 10 * ((loc - 1) % 2) + 100 * ((loc - 1) / 4)); }
+
+static const char* current_name(TestMemoryAllocator* fa)
+{
+    TestMemoryAllocator* cur = getCurrentMallocAllocator();
+    if (cur == fa) return "failable";
+    if (cur == defaultMallocAllocator()) return "plain";
+    if (cur == NullUnknownAllocator::defaultAllocator()) return "null";
+    return "other";
+}
 
 int main(int argc, char** argv)
 {
@@ -95,14 +107,17 @@ int main(int argc, char** argv)
         } else if (op == "clear") fa->clearFailedAllocs();
         else if (op == "countdown") cpputest_malloc_set_out_of_memory_countdown((int) n);
         else if (op == "setoom") cpputest_malloc_set_out_of_memory();
-        else if (op == "setnotoom") {
-            cpputest_malloc_set_not_out_of_memory();
-            setCurrentMallocAllocator(fa);                 // the test's malloc allocator stays the failable one
+        else if (op == "setnotoom") cpputest_malloc_set_not_out_of_memory();
+        else if (op == "install") {
+            if (via == "failable") setCurrentMallocAllocator(fa);
+            else if (via == "plain") setCurrentMallocAllocatorToDefault();
+            else { fprintf(out, "{\"op\":\"harness-error\",\"what\":\"unknown allocator\"}\n"); break; }
         } else if (op == "countreset") cpputest_malloc_count_reset();
         else if (op == "getcount") (void) cpputest_malloc_get_count();     // the value read is logged below, as on every line
         else if (op == "c") {
             void* p = NULL;
             static const char text[] = "out of memory is a normal condition";
+            TestMemoryAllocator* before = getCurrentMallocAllocator();
             if (via == "malloc") p = cpputest_malloc_location(size, alloc_file(loc), line_of(loc));
             else if (via == "calloc") p = cpputest_calloc_location(size / 8, 8, alloc_file(loc), line_of(loc));
             else if (via == "strdup") p = cpputest_strdup_location(text, alloc_file(loc), line_of(loc));
@@ -110,16 +125,16 @@ int main(int argc, char** argv)
             else { fprintf(out, "{\"op\":\"harness-error\",\"what\":\"unknown c function\"}\n"); break; }
             res = p ? "ok" : "null";
             if (p) {
-                // free through whatever allocator is current now; if the injection just switched the allocator
-                // the block still belongs to `fa`
+                // free through the allocator that served the allocation: the one that was current when the call was made
+                // (if the injection switched allocators during the call, to the null allocator, the block is not its own)
                 TestMemoryAllocator* cur = getCurrentMallocAllocator();
-                setCurrentMallocAllocator(fa);
+                setCurrentMallocAllocator(before);
                 cpputest_free_location(p, alloc_file(loc), line_of(loc));
                 setCurrentMallocAllocator(cur);
             }
         } else { fprintf(out, "{\"op\":\"harness-error\",\"what\":\"unknown op\"}\n"); break; }
-        fprintf(out, "{\"op\":%s,\"via\":%s,\"loc\":%ld,\"n\":%ld,\"res\":%s,\"count\":%d}\n", vh_jstr(op).c_str(), vh_jstr(via).c_str(), loc, n,
-                vh_jstr(res).c_str(), cpputest_malloc_get_count());
+        fprintf(out, "{\"op\":%s,\"via\":%s,\"loc\":%ld,\"n\":%ld,\"res\":%s,\"count\":%d,\"cur\":\"%s\"}\n", vh_jstr(op).c_str(), vh_jstr(via).c_str(), loc, n,
+                vh_jstr(res).c_str(), cpputest_malloc_get_count(), current_name(fa));
     }
     fflush(out);
     fclose(out);
